@@ -13,7 +13,7 @@ def handle : List Sexp → Sexp
     match decodeGrammar g, decodeTree host, decodeTree ins, decodeTree r with
     | some g, some host, some ins, some r =>
       .list [ofBool (r.valid g), ofBool (r.sym == host.sym),
-             ofBool ((idLabels host).all fun il => (idLabels r).contains il),
+             ofBool (host.paths.all fun pu => r.paths.any fun qv => keepsNode pu.2 qv.2),
              ofBool (r.paths.any fun pu => embedsAt ins pu.2),
              ofBool (insertCheck g host ins r)]
     | _, _, _, _ => bad
